@@ -43,12 +43,16 @@ META = {
     "property_id": "C08",
     "design_ref": "DESIGN.md §4 C08 (+ C06, §3.5 ranks, §6 F6, Appendix A, B.2)",
     "technique": "Coq proof (arithmetic of torch.chunk sharding; induction over the parameter list for the three filtered traversals and the block-info zip; induction over histories via the C04 masked-step model and the C06 cluster model; column decomposition of the mesh) + correspondence on an in-process rank simulator with duck-typed DTensors (structure and selectors exact, values bit-exact, evaluated by vm_compute) + certified checkers on the observed local shards / logs",
-    "level_text": "Theorems (FullyShard*.v, closed under the global context) for all shapes, shard counts (incl. more ranks than rows), ranks, blocking functions, per-block computations and histories: chunk_partition (torch.chunk shards partition the rows in order), empty_shards_skipped (the filtered parameter / gradient / block-info lists stay aligned, every zip(strict=True) succeeds, block infos carry the position of a NON-EMPTY parameter and its index in the filtered list, a parameter with an empty local shard appears nowhere), fs_run_is_serial_run + fully_shard_eq_serial_on_local (the FullyShard run of a rank is the single-process run on the non-empty local tensors as ordinary parameters, never fails, = block-wise specification), absent_dtensor_grad_is_absent (selector = `p.grad is not None` per block; absent -> value and state kept; all absent -> no step), hybrid_columns_independent, hybrid_eq_fully_plus_ddp (R x S mesh, gs | R, any assignment, any communication rounding: under no_starvation the mesh run exists and every rank (i,s) = FullyShard-only run of shard coordinate s with the communicated quantity rounded), hybrid_replicas_agree (replicas identical, equal all-gather sequences per comms group), hybrid_interleaving_irrelevant (columns share nothing; inside a column every maximal schedule of C06's small-step semantics ends in the lock-step state, none deadlocks). The starvation clause (F6) is excluded by the no_starvation hypothesis exactly as in C06; on the implementation it is the known finding C08:rank-starvation. Tie: simulated ranks with FakeDT parameters, shard counts 1..8, rows fewer than ranks, 1-D/2-D/3-D parameters, 5 optimizer configurations, use_merge_dims on/off, 4-6 steps with absent gradients; HybridShard meshes up to 8 ranks, all divisors, FP32/BF16/FP16, communicate_params on/off, starving histories.",
+    "level_text": "Theorems (FullyShard*.v, closed under the global context) for all shapes, shard counts (incl. more ranks than rows), ranks, blocking functions, per-block computations and histories: chunk_partition (torch.chunk shards partition the rows in order), empty_shards_skipped (the filtered parameter / gradient / block-info lists stay aligned, every zip(strict=True) succeeds, block infos carry the position of a NON-EMPTY parameter and its index in the filtered list, a parameter with an empty local shard appears nowhere), fs_run_is_serial_run + fully_shard_eq_serial_on_local (the FullyShard run of a rank is the single-process run on the non-empty local tensors as ordinary parameters, never fails, = block-wise specification), absent_dtensor_grad_is_absent (selector = `p.grad is not None` per block; absent -> value and state kept; all absent -> no step), hybrid_columns_independent, hybrid_eq_fully_plus_ddp (R x S mesh, gs | R, any assignment, any communication rounding, EVERY history - the skip rule as repaired in /repo, hybrid_every_history_synchronised -: the mesh run exists and every rank (i,s) = FullyShard-only run of shard coordinate s with the communicated quantity rounded), hybrid_replicas_agree (replicas identical, equal all-gather sequences per comms group), hybrid_interleaving_irrelevant (columns share nothing; inside a column every maximal schedule of C06's small-step semantics ends in the lock-step state, none deadlocks). Rank starvation (F6, repaired in /repo) is no longer excluded: starving histories are part of the tie and must pass. Tie: simulated ranks with FakeDT parameters, shard counts 1..8, rows fewer than ranks, 1-D/2-D/3-D parameters, 5 optimizer configurations, use_merge_dims on/off, 4-6 steps with absent gradients; HybridShard meshes up to 8 ranks, all divisors, FP32/BF16/FP16, communicate_params on/off, starving histories.",
     "level_note": "Trusted: Coq kernel+vm_compute; the hand-written model (FullyShardDistributor = inherited default Distributor over the filtered traversals - the inherited part is C04's Masks.v model; HybridShard's replicate-group part is C06's Dist.v model); harness/sim.py and the FakeDT stand-in for DTensor (to_local, .grad; the real fully_shard / DTensor runtime needs accelerators and is not exercised; the chunking is torch.chunk's, as in DTensor Shard(0)); per-block optimizer mathematics is not recomputed: FullyShard values are compared with the single-process implementation run, HybridShard replays the recorded search directions. A rank on which EVERY local shard is empty cannot construct the optimizer (AssertionError `local_blocked_params`; torch.optim equally rejects an empty parameter list): outside the property's domain, modelled as fs_has_work and checked.",
     "ready": True,
 }
 
 SIG_STARVATION = "C08:rank-starvation"
+GLOBAL_SKIP = True      # step() skips only when NO block of the group has a gradient (F6 repaired in /repo)
+# for testing a candidate repair in a scratch copy only (like VERIF_REPO; registered commands never set these)
+if os.environ.get("VERIF_REPO", "/repo") != "/repo":
+    GLOBAL_SKIP = os.environ.get("C08_GLOBAL_SKIP", os.environ.get("C06_GLOBAL_SKIP", "1" if GLOBAL_SKIP else "0")) == "1"
 THEOREMS = ["C08_chunk_partition", "C08_empty_shards_skipped", "C08_fully_shard_eq_serial_on_local", "C08_absent_dtensor_grad_is_absent",
             "C08_hybrid_eq_fully_plus_ddp", "C08_hybrid_replicas_agree", "C08_hybrid_interleaving_irrelevant"]
 
@@ -476,7 +480,7 @@ def coq_hy_case(i, spec, out, sig):
         rec0 = rks[0]["rec"]
         lines.append(f"Definition tbl_{i}_{s} : table := {cl(f'({b}%nat, {k}, {coq_zs(u)})' for b, k, u in table)}.")
         lines.append(f"Definition P_{i}_{s} := exec_params {R}%nat {gs}%nat {nb}%nat {coq_nats([max(o, 0) for o in owners])} {rec0.get('nbytes', 0)}%nat "
-                     f"{coq_bool(spec['cp'])} {FMT[spec['cdtype']]} tbl_{i}_{s} false true.")
+                     f"{coq_bool(spec['cp'])} {FMT[spec['cdtype']]} tbl_{i}_{s} {coq_bool(GLOBAL_SKIP)} true.")
         v0 = rec0.get("init_blocks", [])
         lines.append(f"Definition v0_{i}_{s} : snapshot := {coq_snapshot(v0)}.")
         lines.append(f"Definition b0_{i}_{s} : snapshot := {coq_snapshot([[0] * len(b) for b in v0])}.")
@@ -718,7 +722,7 @@ def run(ck: Check) -> None:
     starv, other, corr = [], [], []
     for r in evaluated:
         spec = r["spec"]
-        starves = spec["kind"] == "hy" and r["sig"]["starves"]
+        starves = spec["kind"] == "hy" and r["sig"]["starves"]     # input side of the (repaired) defect F6
         if r["errors"]:      # starvation makes ranks wait or diverge, it never makes one raise
             other.append((r, "a rank raised: " + r["errors"][0][:300]))
         if spec["kind"] == "hy" and not r["owners_match"]:
